@@ -22,6 +22,7 @@ pub(crate) fn validate(root: &SyntaxNode) -> Vec<SyntaxError> {
             match node {
                 ast::Literal(it) => validate_literal(it, &mut errors),
                 ast::TimingLiteral(it) => validate_timing_literal(it, &mut errors),
+                ast::FilePath(it) => validate_file_path(it, &mut errors),
                 // ast::Const(it) => validate_const(it, &mut errors),
                 // ast::BlockExpr(it) => block::validate_block_expr(it, &mut errors),
                 // ast::FieldExpr(it) => validate_numeric_name(it.name_ref(), &mut errors),
@@ -168,6 +169,29 @@ fn validate_literal(literal: ast::Literal, acc: &mut Vec<SyntaxError>) {
         | ast::LiteralKind::FloatNumber(_)
         | ast::LiteralKind::Bool(_) => {}
     }
+}
+
+/// The path of an `include` (or `defcalgrammar`) statement is a string token that is not
+/// wrapped in a `Literal`; its escapes are validated here. A path with an invalid escape
+/// has no value, so it must not reach semantic analysis.
+fn validate_file_path(file_path: ast::FilePath, acc: &mut Vec<SyntaxError>) {
+    let token = file_path.token();
+    let text = token.text();
+    let Some(delimiter) = text.chars().next() else {
+        return;
+    };
+    let Some(without_quotes) = text.rfind(delimiter).and_then(|end| text.get(1..end)) else {
+        return;
+    };
+    unescape_literal(without_quotes, Mode::Str, &mut |range, char| {
+        if let Err(err) = char {
+            let (message, is_err) = oq3_unescape_error_to_string(err);
+            if is_err {
+                let off = token.text_range().start() + TextSize::try_from(range.start + 1).unwrap();
+                acc.push(SyntaxError::new_at_offset(message, off));
+            }
+        }
+    });
 }
 
 fn validate_timing_literal(timing_literal: ast::TimingLiteral, errors: &mut Vec<SyntaxError>) {
